@@ -101,7 +101,8 @@ class FlexiblePaxosNode(Entity):
 
         # Per-slot tracking
         self._slot_futures: dict[int, SimFuture] = {}
-        self._slot_acks: dict[int, int] = {}
+        self._slot_acks: dict[int, int] = {}  # slot -> ack count
+        self._slot_ackers: dict[int, set[str]] = {}  # slot -> distinct acceptors
         self._pending_commands: list[tuple[Any, SimFuture]] = []
 
         # Phase 1 state
@@ -146,7 +147,15 @@ class FlexiblePaxosNode(Entity):
         return self._log
 
     def submit(self, command: Any) -> SimFuture:
-        """Submit a command for consensus."""
+        """Submit a command for consensus.
+
+        Returns a SimFuture resolving with (index, result) on commit.
+
+        On the leader the command is assigned the next slot; the Accept round
+        for it goes out with the leader's next heartbeat tick (``submit`` cannot
+        return events itself), so it is decided within one heartbeat interval
+        plus a round trip.
+        """
         future = SimFuture()
         if not self._is_leader:
             self._pending_commands.append((command, future))
@@ -158,7 +167,8 @@ class FlexiblePaxosNode(Entity):
         slot = self._log.last_index + 1
         self._log.append(self._current_ballot.number, command)
         self._slot_futures[slot] = future
-        self._slot_acks[slot] = 1  # self
+        self._slot_ackers[slot] = {self.name}  # self
+        self._slot_acks[slot] = 1
 
     def start(self) -> list[Event]:
         return self._begin_phase1()
@@ -284,8 +294,7 @@ class FlexiblePaxosNode(Entity):
         self._pending_commands.clear()
 
         events.extend(self._send_heartbeat())
-        for slot_idx in range(self._log.commit_index + 1, self._log.last_index + 1):
-            events.extend(self._replicate_slot(slot_idx))
+        events.extend(self._replicate_uncommitted())
         return events
 
     def _handle_accept(self, event: Event) -> list[Event]:
@@ -344,9 +353,11 @@ class FlexiblePaxosNode(Entity):
         metadata = event.context.get("metadata", {})
         slot = metadata["slot"]
 
-        if slot not in self._slot_acks:
-            self._slot_acks[slot] = 0
-        self._slot_acks[slot] += 1
+        # Count each acceptor once per slot: Accepts are re-sent on every
+        # heartbeat tick until the slot commits, so an acceptor may answer twice.
+        ackers = self._slot_ackers.setdefault(slot, set())
+        ackers.add(metadata.get("from") or metadata.get("source"))
+        self._slot_acks[slot] = len(ackers)
 
         if self._slot_acks[slot] >= self._phase2_quorum and slot > self._log.commit_index:
             newly_committed = self._log.advance_commit(slot)
@@ -360,7 +371,14 @@ class FlexiblePaxosNode(Entity):
         if metadata.get("self_heartbeat"):
             if not self._is_leader:
                 return None
-            return self._send_heartbeat()
+            # The tick also drives replication: (re-)send the Accept for every
+            # assigned slot that is not committed yet. This is what gets a
+            # command passed to submit() decided (submit cannot return events),
+            # and it retries a slot whose Accepts or acks were lost. Accepts
+            # are idempotent on the acceptors and acks are counted per acceptor.
+            events = self._send_heartbeat()
+            events.extend(self._replicate_uncommitted())
+            return events
 
         ballot = Ballot(metadata.get("ballot_number", 0), metadata.get("ballot_node", ""))
         leader_commit = metadata.get("commit_index", 0)
@@ -382,6 +400,13 @@ class FlexiblePaxosNode(Entity):
             self._current_ballot = higher
             self._is_leader = False
         return []
+
+    def _replicate_uncommitted(self) -> list[Event]:
+        """Send Accepts for every slot in the log that is not committed yet."""
+        events: list[Event] = []
+        for slot_idx in range(self._log.commit_index + 1, self._log.last_index + 1):
+            events.extend(self._replicate_slot(slot_idx))
+        return events
 
     def _replicate_slot(self, slot: int) -> list[Event]:
         entry = self._log.get(slot)
